@@ -61,8 +61,11 @@ def stepDial (op impl : String) : StepOut := Id.run do
     let cls := (impl.drop 6).toString
     if noqtp then
       return { model := "PANIC:no_qtp", tags := ["dial:panic_no_qtp"] }
-    return { model := "ok-sections", tags := ["dial:PANIC"],
-             fails := [("no_panic", panicKnown der faults cls, s!"the dialing process panicked ({cls}) der={der} faults={faults}")] }
+    -- the model does not cover the packer; a crash that is a LISTED finding is echoed (the monitor still reports it),
+    -- any other crash is also a correspondence break
+    let known := panicKnown der faults cls
+    return { model := if known == "-" then "ok-sections" else impl, tags := ["dial:PANIC"],
+             fails := [("no_panic", known, s!"the dialing process panicked ({cls}) der={der} faults={faults}")] }
   if impl == "hang-real" then
     return { model := "ok-sections", tags := ["dial:hang"], fails := [("no_hang", "-", "the scenario did not finish in real time")] }
   if impl == "skip" then return { model := "skip", tags := ["dial:skip"] }
@@ -107,6 +110,10 @@ def stepDial (op impl : String) : StepOut := Id.run do
       let dcidlen := dNat ((getKV t "dcidlen").getD "0")
       let minsz := ((getKV t "minsz").getD "-1").toInt?.getD (-1)
       let sizes : List Nat := if minsz < 0 then [] else [minsz.toNat]
+      -- LISTED finding (fixes/C02-zero-scid-transport-reuse.diff): a later dial on the SAME transport with zero-length
+      -- source connection IDs loses its routing when the previous connection's grace period ends
+      let zeroReuse := getKV a "tr" == some "same" && decide (2 ≤ i) &&
+        (match acc.spec with | some s => s.scidLen == 0 | none => false)
       let mut tags : List String := [if i ≤ 1 then "dial:first" else "dial:redial"]
       if faulty then tags := tags ++ ["dial:faults"]
       if srv ≠ "def" then tags := tags ++ [s!"srv:{srv}"]
@@ -128,8 +135,11 @@ def stepDial (op impl : String) : StepOut := Id.run do
         | none => tags := tags ++ ["dial:noflight"]
         | some r =>
           let (allowed, tg) := allowedOuts r faulty
+          let allowed := if zeroReuse then allowed ++ timeouts else allowed
           predOut := if allowed.contains implOut then implOut else allowed.headD "ok"
           predAdv := fmtConnID (advSeen r)
+          -- a dial that times out may die before the server got to see the parameters
+          if timeouts.contains predOut && getKV t "adv" == some "-" then predAdv := "-"
           predOwn := fmtConnID (some r.2.2.iscid)
           tags := tags ++ [tg]
           if r.1 ≠ s then tags := tags ++ ["dial:writeback"]
@@ -143,11 +153,12 @@ def stepDial (op impl : String) : StepOut := Id.run do
         if i ≤ 1 then
           fails := fails ++ [("first_dial_succeeds", "-", s!"base={base} der={der} srv={srv} faults={faults}: {implOut}")]
         else
-          fails := fails ++ [("redial_succeeds", "-", s!"dial {i} on {if fresh then "a fresh" else "the same"} spec value base={base} der={der} srv={srv} faults={faults}: {implOut}")]
+          fails := fails ++ [("redial_succeeds", if zeroReuse && timeouts.contains implOut then "zero_scid_transport_reuse" else "-", s!"dial {i} on {if fresh then "a fresh" else "the same"} spec value base={base} der={der} srv={srv} faults={faults}: {implOut}")]
       if implOut == "ok" then
         let up := (getKV t "up").getD ""; let down := (getKV t "down").getD ""
         if !(dataOK up && dataOK down) then
-          fails := fails ++ [("data_both_ways", "-", s!"dial {i}: up={up} down={down}")]
+          let lost := (up.splitOn ":").any (timeouts.contains ·) || (down.splitOn ":E:").any (fun x => timeouts.contains ("E:" ++ x)) || up == "E:open" || up == "E:write"
+          fails := fails ++ [("data_both_ways", if zeroReuse && lost then "zero_scid_transport_reuse" else "-", s!"dial {i}: up={up} down={down}")]
       if wf && base ≠ "none" then
         if 0 ≤ minsz && minsz < 1200 then
           fails := fails ++ [("flight_legal", "-", s!"dial {i}: an Initial datagram of {minsz} bytes")]
